@@ -2,12 +2,14 @@ import Rivaas.Proto
 import Rivaas.Model.Bind
 import Rivaas.Spec.Bind
 import Rivaas.Model.BindObs
+import Rivaas.Model.BindBody
+import Rivaas.Spec.BindBody
 import Rivaas.Lemmas.BindPath
 /-
 Driver for C04. Case line:
-  <id> <G|T|B> <tag 0..4> <maxDepth> <maxSlice> <maxMap> <csv> <baseAuto> <Ty> <init Val>
+  <id> <G|T|B> <tag 0..4> <maxDepth> <maxSlice> <maxMap> <csv> <baseAuto> <nconv> { <leaf type key> <converter> }* <Ty> <init Val>
        <nkeys> { <key> <nvals> <val>* }*        (entry B: <nsrc> { <tag> <nkeys> { <key> <nvals> <val>* }* }*)
-       <ntbl> { <string> <i10> <i0> <u10> <u0> <f> <t> <d> <j> <nopq> { <kind> <rendering> }* }*
+       <ntbl> { <string> <i10> <i0> <u10> <u0> <f> <t> <d> <j> <nopq> { <kind> <rendering> }* <nconv> { <converter> <rendering> }* }*
        => O <Val> | E <n> <name>* <D|L|M|C> | X
   Ty  ::= P <code> | R Ty | L Ty | M Ty | T <n> { <name> <exported> <anon> <q> <p> <f> <h> <c> <default> Ty }*
   Val ::= i <int> | u <nat> | f <bits> | b <0|1> | s <str> | t <str> | n | p Val | l <n> Val* | m <n> {<key> Val}* | S <n> Val*
@@ -67,13 +69,20 @@ def pEntry : P (Bytes × PEntry) := do
   let d ← opt int
   let j ← opt (list (do let k ← str; let v ← str; pure (k, v)))
   let o ← list (do let k ← nat; let r ← str; pure (k, r))
-  pure (s, { i10 := i10, i0 := i0, u10 := u10, u0 := u0, f := f, t := t, d := d, j := j, o := o })
+  let c ← list (do let k ← nat; let r ← str; pure (k, r))
+  pure (s, { i10 := i10, i0 := i0, u10 := u10, u0 := u0, f := f, t := t, d := d, j := j, o := o, c := c })
 
 def pTag : P Tag := do
   let n ← nat
   match n with
   | 0 => pure .query | 1 => pure .path | 2 => pure .form | 3 => pure .header | 4 => pure .cookie
   | _ => failure
+
+/-- <maxDepth> <maxSlice> <maxMap> <csv> <baseAuto> <nconv> { <leaf type key> <converter> }* -/
+def pCfg : P Cfg := do
+  let md ← nat; let ms ← nat; let mm ← nat; let csv ← bool; let ba ← bool
+  let convs ← list (do let k ← nat; let c ← nat; pure (k, c))
+  pure { maxDepth := md, maxSlice := ms, maxMap := mm, csv := csv, baseAuto := ba, convs := convs }
 
 structure Case where
   entry : String
@@ -88,7 +97,7 @@ structure Case where
 def pCase : P Case := do
   let e ← tok
   let tag ← pTag
-  let md ← nat; let ms ← nat; let mm ← nat; let csv ← bool; let ba ← bool
+  let cfg ← pCfg
   let ty ← pTy
   let init ← pVal
   let pKvs : P (List (Bytes × List Bytes)) := list (do let k ← str; let vs ← list str; pure (k, vs))
@@ -96,7 +105,7 @@ def pCase : P Case := do
   let srcs ← if e == "B" || e == "A" then list (do let t ← pTag; let kvs ← pKvs; pure ({ kind := t, kvs := kvs } : Src))
              else (do let kvs ← pKvs; pure [({ kind := tag, kvs := kvs } : Src)])
   let tbl ← list pEntry
-  pure { entry := e, tag := tag, cfg := { maxDepth := md, maxSlice := ms, maxMap := mm, csv := csv, baseAuto := ba },
+  pure { entry := e, tag := tag, cfg := cfg,
          ty := ty, init := init, src := srcs.headD { kind := tag, kvs := [] }, srcs := srcs, tbl := tbl }
 
 def pErrClass : P Err := do
@@ -144,6 +153,103 @@ def encObs : Spec.Obs → String
   | .err e => encErr e
   | .panic => "X"
 
+/-! ### body entries
+
+  <id> J <maxDepth> <maxSlice> <maxMap> <csv> <baseAuto> <Ty> <init>
+       <nsteps> { S <tag> <kvs> | D <j|x> <policy 0|1|2> <reader> <readFails 0|1|2> <DocInfo> }* <tbl>
+       => O <Val> | E <n> <name>* <class> | F <R|D|N|T|U <name>> | X
+  <id> H <Ty> <init> <bodyTags> <ctype> 4 { <tag> <kvs> }* <form kvs> <ndocs> <DocInfo>* <nops> { b <strict> | s <doc|-1> | r }* <tbl> => …
+  DocInfo ::= <Dec> <Dec> <object>      Dec ::= O <Val> | U <name> | B
+-/
+
+def pDec : P Dec := do
+  let k ← tok
+  match k with
+  | "O" => Dec.ok <$> pVal
+  | "U" => Dec.unknown <$> str
+  | "B" => pure .bad
+  | _ => failure
+
+def pDocInfo : P DocInfo := do
+  let l ← pDec; let s ← pDec; let o ← bool
+  pure { lax := l, strict := s, object := o }
+
+def pKvs : P (List (Bytes × List Bytes)) := list (do let k ← str; let vs ← list str; pure (k, vs))
+
+def pStep : P Step := do
+  let k ← tok
+  match k with
+  | "S" => do let t ← pTag; let kvs ← pKvs; pure (.src { kind := t, kvs := kvs })
+  | "D" => do
+    let f ← tok
+    let pol ← nat; let rd ← bool; let rf ← nat; let d ← pDocInfo
+    pure (.body { fmt := if f == "x" then .xml else .json,
+                  policy := match pol with | 0 => .ignore | 1 => .warn | _ => .error,
+                  reader := rd, readFails := rf, doc := d })
+  | _ => failure
+
+def pOp : P Op := do
+  let k ← tok
+  match k with
+  | "b" => Op.bind <$> bool
+  | "s" => do
+    let i ← int
+    pure (.setBody (if i < 0 then none else some i.toNat))
+  | "r" => pure .reset
+  | _ => failure
+
+structure JCase where
+  cfg : Cfg
+  ty : Ty
+  init : Val
+  steps : List Step
+  tbl : List (Bytes × PEntry)
+
+def pJCase : P JCase := do
+  let cfg ← pCfg
+  let ty ← pTy
+  let init ← pVal
+  let steps ← list pStep
+  let tbl ← list pEntry
+  pure { cfg := cfg, ty := ty, init := init, steps := steps, tbl := tbl }
+
+structure HCase where
+  ty : Ty
+  init : Val
+  http : Http
+  ops : List Op
+  tbl : List (Bytes × PEntry)
+
+def pHCase : P HCase := do
+  let ty ← pTy
+  let init ← pVal
+  let bt ← bool
+  let ct ← str
+  let params ← list (do let t ← pTag; let kvs ← pKvs; pure ({ kind := t, kvs := kvs } : Src))
+  let form ← pKvs
+  let docs ← list pDocInfo
+  let ops ← list pOp
+  let tbl ← list pEntry
+  pure { ty := ty, init := init, ops := ops, tbl := tbl,
+         http := { ctype := ct, params := params, form := { kind := .form, kvs := form }, docs := docs, bodyTags := bt } }
+
+def pBObs : P Spec.BObs := do
+  let k ← tok
+  match k with
+  | "O" => Spec.BObs.ok <$> pVal
+  | "E" => do
+    let names ← list str
+    let c ← pErrClass
+    pure (.err (.bind (Spec.wrapErr names c)))
+  | "F" => do
+    let c ← tok
+    match c with
+    | "R" => pure (.err .read) | "D" => pure (.err .decode) | "N" => pure (.err .nobody) | "T" => pure (.err .ctype)
+    | "U" => do let n ← str; pure (.err (.unknown n))
+    | _ => failure
+  | "X" => pure .panic
+  | _ => failure
+
 def lookupP (tbl : List (Bytes × PEntry)) : Params := fun s => (assoc s tbl).getD {}
 
 /-- the hypotheses of `bind_meets_spec`, checked on every case: well-typed destination, type inside
@@ -157,9 +263,72 @@ def preconditions (c : Case) : Bool :=
     | some (_, _, above, inf32) => !inf32 || above
     | none => true)
 
+def encBErr : BErr → String
+  | .decode => "F D" | .read => "F R" | .ctype => "F T" | .nobody => "F N"
+  | .unknown n => "F U " ++ encStr n
+  | .bind e => encErr e
+
+def encBOut : BOut → String
+  | .ok v => "O " ++ encVal v
+  | .err e => encBErr e
+  | .panic => "X"
+
+def encBObs : Spec.BObs → String
+  | .ok v => "O " ++ encVal v
+  | .err e => encBErr e
+  | .panic => "X"
+
+def stepsOK (steps : List Step) : Bool :=
+  steps.all fun s => match s with
+    | .src s => Spec.srcOK s
+    | .body _ => true
+
+def tblOK (tbl : List (Bytes × PEntry)) : Bool :=
+  tbl.all (fun e => match e.2.f with
+    | some (_, _, above, inf32) => !inf32 || above
+    | none => true)
+
+def stepJ (id : String) (inp obs : List String) : String :=
+  match runP pJCase inp, runP pBObs obs with
+  | some c, some o =>
+    match c.ty, c.init with
+    | .struct fs, .struct ivs =>
+      if !(wts fs ivs && Spec.inGrammarFs fs && stepsOK c.steps && tblOK c.tbl && (Spec.bodiesOf c.steps).length ≤ 1) then
+        s!"{id} bad-case preconditions"
+      else
+        let P := lookupP c.tbl
+        let m := bindSteps P c.cfg fs c.init c.steps
+        verdict id (encBOut m == encBObs o) (Spec.specSteps P c.cfg fs c.init c.steps o) "-" (encBOut m)
+    | _, _ => s!"{id} bad-case type"
+  | _, _ => s!"{id} bad-case"
+
+def lastStrict : List Op → Bool
+  | [] => false
+  | .bind s :: rest => if rest.any (fun o => match o with | .bind _ => true | _ => false) then lastStrict rest else s
+  | _ :: rest => lastStrict rest
+
+def stepH (id : String) (inp obs : List String) : String :=
+  match runP pHCase inp, runP pBObs obs with
+  | some c, some o =>
+    match c.ty, c.init with
+    | .struct fs, .struct ivs =>
+      if !(wts fs ivs && Spec.inGrammarFs fs && c.http.params.all Spec.srcOK && Spec.srcOK c.http.form && tblOK c.tbl) then
+        s!"{id} bad-case preconditions"
+      else
+        let P := lookupP c.tbl
+        let m := appRun P fs c.init c.http c.ops
+        let reads := c.http.bodyTags && classifyCT c.http.ctype == .json &&
+          (match bindMulti P Cfg.default fs c.init c.http.params with | .ok _ => true | _ => false)
+        let doc := (Spec.docOfOps reads c.ops (none, some 0, none)).bind (fun i => c.http.docs[i]?)
+        verdict id (encBOut m == encBObs o) (Spec.specApp P fs c.init c.http (lastStrict c.ops) doc o) "-" (encBOut m)
+    | _, _ => s!"{id} bad-case type"
+  | _, _ => s!"{id} bad-case"
+
 def step (line : String) : String :=
   match splitCase line with
   | none => "? bad-line"
+  | some (id, "J" :: inp, obs) => stepJ id inp obs
+  | some (id, "H" :: inp, obs) => stepH id inp obs
   | some (id, inp, obs) =>
     match runP pCase inp, runP pObs obs with
     | some c, some o =>
